@@ -1519,6 +1519,65 @@ class BodyGen:
         return head + "".join(self.defs) + main
 
 
+def rename_ast(n, ren):
+    if isinstance(n, list):
+        return [rename_ast(x, ren) for x in n]
+    if not isinstance(n, tuple):
+        return n
+    k = n[0]
+    if k == "var":
+        return ("var", ren.get(n[1], n[1]))
+    if k == "idx":
+        name = n[1]
+        if "->" in name:
+            o, f = name.split("->", 1)
+            name = ren.get(o, o) + "->" + f
+        else:
+            name = ren.get(name, name)
+        return ("idx", name, rename_ast(n[2], ren))
+    if k == "mem":
+        return ("mem", ren.get(n[1], n[1]), n[2])
+    if k == "mcall":
+        return ("mcall", ren.get(n[1], n[1]), n[2], rename_ast(n[3], ren))
+    if k == "decl":
+        return ("decl", n[1], n[2], ren.get(n[3], n[3]), n[4], rename_ast(n[5], ren))
+    if k == "call":
+        return ("call", n[1], rename_ast(n[2], ren))
+    return tuple([k] + [rename_ast(c, ren) if isinstance(c, (tuple, list)) else c for c in n[1:]])
+
+
+def idents(n, acc):
+    if isinstance(n, list):
+        for x in n:
+            idents(x, acc)
+    elif isinstance(n, tuple):
+        if n[0] in ("var", "mem", "mcall"):
+            acc.add(n[1])
+        elif n[0] == "idx":
+            acc.add(n[1].split("->", 1)[0])
+        elif n[0] == "decl":
+            acc.add(n[3])
+        for c in n[1:]:
+            idents(c, acc)
+    return acc
+
+
+def canonical(items, params, local_names):
+    """the names of parameters and locals do not matter: they are renamed to the names the proof templates use - parameters by
+    position, locals by order of declaration (then the loop counters declared by their `for`).  Returns (items, names of the
+    parameters to use); nothing is renamed when the number of locals differs or a new name would capture another identifier"""
+    decls = [d[3] for d in flat_decls(items, [])]
+    actual = decls + sorted(for_counters(items, set()) - set(decls))
+    ren = {a: c for a, c in params}
+    if len(actual) == len(local_names):
+        ren.update(zip(actual, local_names))
+    ren = {a: c for a, c in ren.items() if a != c}
+    others = idents(items, set()) - set(ren)
+    if len(set(ren.values())) != len(ren) or set(ren.values()) & others or set(ren) & {"this"}:
+        return items, [a for a, _ in params]
+    return rename_ast(items, ren), [c for _, c in params]
+
+
 FALLBACK = {"reset": (f"(p : {SHA}) : {SHA}", "Nstd.Sha.reset p"),
             "WriteByteBlock": (f"(p : {SHA}) : {SHA}", "Nstd.Sha.writeByteBlock p"),
             "update": (f"(p : {SHA}) (data : List UInt8) : {SHA}", "Nstd.Sha.update p data"),
@@ -1548,6 +1607,8 @@ def body_functions(raw, hdr):
     if not m:
         raise Untranslatable("class Sha256: data members are not `uint32 state[8]; uint64 count; byte buffer[64];`")
     squeeze = lambda t: re.sub(r"\s+", " ", t).strip()
+    # `Sha256 x;` is translated as `init` = `reset` on fresh storage: that is what the constructor must be
+    ctor = re.search(r"\bSha256\s*\(\s*\)\s*\{\s*reset\s*\(\s*\)\s*;\s*\}", raw) is not None
 
     def one(name, fn):
         try:
@@ -1564,7 +1625,8 @@ def body_functions(raw, hdr):
         mp = re.match(r"\s*Sha256\s*\*\s*(\w+)\s*$", params)
         if not mp:
             raise Untranslatable(f"WriteByteBlock: parameter list `{params}`")
-        g = BodyGen("WriteByteBlock", parse_function(body), mp.group(1))
+        items, (pn,) = canonical(parse_function(body), [(mp.group(1), "p")], ["data32", "i"])
+        g = BodyGen("WriteByteBlock", items, pn)
         return g.run(f"/-- `Sha256::Private::WriteByteBlock({squeeze(params)})`: `{squeeze(body)}` -/\n", "{st}.p", f"(p : {SHA}) : {SHA}")
 
     def upd():
@@ -1572,16 +1634,18 @@ def body_functions(raw, hdr):
         mp = re.match(r"\s*const\s+Byte\s*\*\s*(\w+)\s*,\s*usize\s+(\w+)\s*$", params)
         if not mp:
             raise Untranslatable(f"update: parameter list `{params}`")
-        g = BodyGen("update", parse_function(body), None, in_stream=(mp.group(1), mp.group(2)))
-        return g.run(f"/-- `Sha256::update({squeeze(params)})`: `{squeeze(body)}`; the byte range is the list `{mp.group(1)}` -/\n", "{st}.p",
-                     f"(p : {SHA}) ({mp.group(1)} : List UInt8) : {SHA}")
+        items, (dn, sn) = canonical(parse_function(body), [(mp.group(1), "data"), (mp.group(2), "size")], ["p", "curBufferPos"])
+        g = BodyGen("update", items, None, in_stream=(dn, sn))
+        return g.run(f"/-- `Sha256::update({squeeze(params)})`: `{squeeze(body)}`; the byte range is the list `{dn}` -/\n", "{st}.p",
+                     f"(p : {SHA}) ({dn} : List UInt8) : {SHA}")
 
     def fin():
         params, body = function_text(raw, r"void\s+Sha256::finalize\s*\(([^{]*)\)\s*\{", "Sha256::finalize")
         mp = re.match(r"\s*byte\s*\(\s*&\s*(\w+)\s*\)\s*\[\s*digestSize\s*\]\s*$", params)
         if not mp:
             raise Untranslatable(f"finalize: parameter list `{params}`")
-        g = BodyGen("finalize", parse_function(body), None, out_ref=mp.group(1))
+        items, (rn,) = canonical(parse_function(body), [(mp.group(1), "digestBuf")], ["p", "lenInBits", "curBufferPos", "i", "digest"])
+        g = BodyGen("finalize", items, None, out_ref=rn)
         if g.out_ptr is None:
             raise Untranslatable("finalize: no output pointer initialised from the digest parameter")
         return g.run(f"/-- `Sha256::finalize({squeeze(params)})`: `{squeeze(body)}`; result: the bytes written through the output pointer, and the object -/\n",
@@ -1591,7 +1655,8 @@ def body_functions(raw, hdr):
         params, body = function_text(raw, r"void\s+Sha256::reset\s*\(([^)]*)\)\s*\{", "Sha256::reset")
         if params.strip():
             raise Untranslatable(f"reset: parameter list `{params}`")
-        g = BodyGen("reset", parse_function(body), None)
+        items, _ = canonical(parse_function(body), [], ["p"])
+        g = BodyGen("reset", items, None)
         return g.run(f"/-- `Sha256::reset()`: `{squeeze(body)}` -/\n", "{st}.p", f"(p : {SHA}) : {SHA}")
 
     def hsh():
@@ -1599,11 +1664,14 @@ def body_functions(raw, hdr):
         mp = re.match(r"\s*const\s+byte\s*\*\s*(\w+)\s*,\s*usize\s+(\w+)\s*,\s*byte\s*\(\s*&\s*(\w+)\s*\)\s*\[\s*digestSize\s*\]\s*$", params)
         if not mp:
             raise Untranslatable(f"hash: parameter list `{params}`")
-        g = BodyGen("hash", parse_function(body), None, in_stream=(mp.group(1), mp.group(2)), out_ref=mp.group(3))
+        items, (dn, sn, rn) = canonical(parse_function(body), [(mp.group(1), "data"), (mp.group(2), "size"), (mp.group(3), "result")], ["sha256"])
+        g = BodyGen("hash", items, None, in_stream=(dn, sn), out_ref=rn)
         if not g.local_obj:
             raise Untranslatable("hash: no local `Sha256` object")
+        if not ctor:
+            raise Untranslatable("hash: the constructor is not `Sha256() {reset();}` (a local object is translated as `init`)")
         return g.run(f"/-- `Sha256::hash({squeeze(params)})`: `{squeeze(body)}`; the local object is constructed by `Sha256()` = `init` -/\n",
-                     "{st}.out", f"({mp.group(1)} : List UInt8) : List UInt8")
+                     "{st}.out", f"({dn} : List UInt8) : List UInt8")
 
     def hm():
         params, body = function_text(raw, r"static\s+void\s+hmac\s*\(([^{]*)\)\s*\{", "Sha256::hmac")
@@ -1611,12 +1679,15 @@ def body_functions(raw, hdr):
                       r"\s*byte\s*\(\s*&\s*(\w+)\s*\)\s*\[\s*digestSize\s*\]\s*$", params)
         if not mp:
             raise Untranslatable(f"hmac: parameter list `{params}`")
-        key, ksz, msg, msz, res = mp.groups()
         consts = {"blockSize": hdr["blockSize"], "digestSize": hdr["digestSize"]}
-        g = BodyGen("hmac", parse_function(body, consts), None, out_ref=res, streams={key: ksz, msg: msz}, consts=consts,
+        items, (key, ksz, msg, msz, res) = canonical(parse_function(body, consts), list(zip(mp.groups(), ("key", "keySize", "message", "messageSize", "result"))),
+                                                     ["sha256", "hashKey", "oKeyPad", "iKeyPad", "hash", "i"])
+        g = BodyGen("hmac", items, None, out_ref=res, streams={key: ksz, msg: msz}, consts=consts,
                     uninit_params=True, segmented=True)
         if not g.local_obj:
             raise Untranslatable("hmac: no local `Sha256` object")
+        if not ctor:
+            raise Untranslatable("hmac: the constructor is not `Sha256() {reset();}` (a local object is translated as `init`)")
         want = {"hashKey": ("UInt8", hdr["blockSize"]), "oKeyPad": ("UInt8", hdr["blockSize"]), "iKeyPad": ("UInt8", hdr["blockSize"]),
                 "hash": ("UInt8", hdr["digestSize"])}
         if g.arrays != want or g.scalars or (key, msg) != ("key", "message"):
@@ -1739,6 +1810,11 @@ def generate(repo, defines=(), ns="Sha256", suffix="", want_body=False):
                     ("hmacOpad", r"oKeyPad\s*\[\s*i\s*\]\s*=\s*hashKey\s*\[\s*i\s*\]\s*\^\s*(0[xX][0-9a-fA-F]+|\d+)\s*;"),
                     ("hmacIpad", r"iKeyPad\s*\[\s*i\s*\]\s*=\s*hashKey\s*\[\s*i\s*\]\s*\^\s*(0[xX][0-9a-fA-F]+|\d+)\s*;")):
         mm = re.findall(rx, code)
+        if len(mm) != 1 and key in ("hmacOpad", "hmacIpad"):
+            # renamed locals: the two statements `A[i] = K[i] ^ c;` of the pad loop, in their order (outer pad first)
+            pads = re.findall(r"\b(\w+)\s*\[\s*(\w+)\s*\]\s*=\s*(\w+)\s*\[\s*\2\s*\]\s*\^\s*(0[xX][0-9a-fA-F]+|\d+)\s*;", code)
+            if len(pads) == 2 and pads[0][2] == pads[1][2] and pads[0][0] != pads[1][0]:
+                mm = [pads[0 if key == "hmacOpad" else 1][3]]
         if len(mm) != 1:
             raise Untranslatable(f"Sha256.hpp: constant {key} not found (or found {len(mm)} times)")
         hdr[key] = int(mm[0], 0)
